@@ -7,6 +7,9 @@ import re
 
 import vf
 
+# TLC workers / trace shards: all cores by default; VERIF_WORKERS lowers both on a shared machine
+WORKERS = max(1, min(vf.NCPU, int(os.environ.get("VERIF_WORKERS", vf.NCPU) or vf.NCPU)))
+
 RE_ROW = re.compile(r'^<<"ROW", "(.*)">>$')
 RE_INIT = re.compile(r"Finished computing initial states: (\d+) distinct state")
 
@@ -15,7 +18,7 @@ def mc_table(ctx, name, module, consts, plain, invariants, timeout=900):
     """Model-check the table module (design-level invariants over every abstract row)."""
     p = dict(plain)
     p["Emit"] = False
-    r = vf.mc_run(ctx, name, module, consts, p, invariants=invariants, timeout=timeout)
+    r = vf.mc_run(ctx, name, module, consts, p, invariants=invariants, timeout=timeout, workers=WORKERS)
     vf.mc_expect_ok(ctx, r, "%s/%s" % (module, name))
     return r
 
@@ -24,7 +27,7 @@ def gen_rows(ctx, name, module, consts, plain, out_path, timeout=900):
     """Let TLC enumerate the abstract rows and print them as JSON; writes one row per line, returns the count."""
     p = dict(plain)
     p["Emit"] = True
-    r = vf.mc_run(ctx, "gen-" + name, module, consts, p, invariants=["EmitRow"], timeout=timeout)
+    r = vf.mc_run(ctx, "gen-" + name, module, consts, p, invariants=["EmitRow"], timeout=timeout, workers=min(WORKERS, 4))
     if not r["ok"] or r["violated"] or r["error"]:
         raise vf.Infra("%s GEN/%s failed: %s\n%s" % (module, name, r["violated"] or r["error"], "\n".join(r["out"].splitlines()[-30:])))
     n = 0
@@ -135,5 +138,10 @@ def replay(ctx, path, module, reexec, describe):
 
 def need(ctx, counters, keys, what):
     missing = [k for k in keys if counters.get(k, 0) <= 0]
+    if missing and ctx.violations:
+        # a run that found violations is not turned into an infrastructure failure because the violating behaviour
+        # emptied a counter
+        ctx.notes.append("non-vacuity counters at zero in a run with violations: " + ", ".join(missing[:12]))
+        return
     if missing:
         raise vf.Infra("vacuous run (%s): no execution counted for %s" % (what, ", ".join(missing[:12])))
